@@ -158,11 +158,17 @@ FeedExec(W, from, op, a) ==
   LET f == W.feed
   IN IF f.kind = "mock"
      THEN CASE op = "append_price" -> HRes(TRUE, [W EXCEPT !.feed.price = a.price], <<>>, NoData)
+            [] op = "append_multiple_price" ->   \* the mock stores only the first element (and panics on an empty batch)
+                 IF a.prices = <<>> THEN HRes(FALSE, W, <<>>, NoData)
+                 ELSE HRes(TRUE, [W EXCEPT !.feed.price = a.prices[1]], <<>>, NoData)
             [] op = "update_owner" -> IF from # f.owner THEN HRes(FALSE, W, <<>>, NoData)
                                       ELSE HRes(TRUE, [W EXCEPT !.feed.owner = a.owner], <<>>, NoData)
             [] OTHER -> HRes(FALSE, W, <<>>, NoData)
      ELSE CASE op = "append_price" -> IF from # f.owner THEN HRes(FALSE, W, <<>>, NoData)
                                       ELSE HRes(TRUE, [W EXCEPT !.feed = AppendRound(f, a.key, a.price, a.t)], <<>>, NoData)
+            [] op = "append_multiple_price" ->
+                 IF from # f.owner \/ Len(a.prices) # Len(a.ts) THEN HRes(FALSE, W, <<>>, NoData)
+                 ELSE HRes(TRUE, [W EXCEPT !.feed = AppendMany(f, a.key, a.prices, a.ts, 1)], <<>>, NoData)
             [] op = "update_owner" -> IF from # f.owner THEN HRes(FALSE, W, <<>>, NoData)
                                       ELSE HRes(TRUE, [W EXCEPT !.feed.owner = a.owner], <<>>, NoData)
             [] OTHER -> HRes(FALSE, W, <<>>, NoData)
